@@ -187,6 +187,12 @@ def case_strategy(draw, driver=None):
                 o = draw(st.sampled_from(["silent", "value"]))
                 c["oc"] = ["value", draw(st.integers(0, 255))] if o == "value" else ["silent"]
             cmds.append(c)
+        if kind == "seq":
+            # the sequence yields an ENABLE DEVICE TYPE of its own (for another device type) right before a command
+            # that needs one: the driver's matching prefix still has to sit directly in front of that command
+            for j in range(len(cmds) - 1, -1, -1):
+                if cmds[j]["k"] in DT and draw(st.integers(0, 3)) == 0:
+                    cmds.insert(j, {"k": "edt", "a": 40 + ci * 9 + j})
         if kind in ("seq", "txn"):
             for _ in range(draw(st.integers(0 if cmds else 1, 2))):
                 item = draw(st.sampled_from([{"k": "sleep", "d": 0.001}, {"k": "sleep", "d": 0.03}, {"k": "sleep", "d": 0.25},
